@@ -25,7 +25,8 @@ func (s1 jsonString) Equals(n JsonNode, metadata ...Metadata) bool {
 }
 
 func (s jsonString) hashCode(_ []Metadata) [8]byte {
-	return hash([]byte(s))
+	b := []byte{0x8B, 0x1E, 0x52, 0x0C, 0x37, 0xA9, 0xD4, 0x61} // random bytes
+	return hash(append(b, []byte(s)...))
 }
 
 func (s jsonString) Diff(n JsonNode, metadata ...Metadata) Diff {
